@@ -120,6 +120,25 @@ def check_fit_axes(f, axes, option, tag, log_x=False, asym=False):
     main = axes["main"]
     ebs = errorbars(main)
     if k == "unbinned":
+        # rug: one vertical segment per entry at its x; density curve: the model function over the plotted range
+        segs = [c for c in main.collections if type(c).__name__ == "LineCollection"]
+        if not segs:
+            return {"got": [type(c).__name__ for c in main.collections], "expected": "one vertical line per entry", "witness_class": tag + ":no-data-artist"}
+        sg = np.asarray(segs[0].get_segments(), float)
+        xs = np.sort(np.asarray(f.data, float))
+        if sg.shape != (len(xs), 2, 2) or not np.allclose(np.sort(sg[:, 0, 0]), xs) or not np.allclose(sg[:, 0, 0], sg[:, 1, 0]):
+            return {"got": sg[:3].tolist(), "expected": xs[:3].tolist(), "witness_class": tag + ":rug-x"}
+        if not (np.allclose(sg[:, 0, 1], sg[0, 0, 1]) and np.allclose(sg[:, 1, 1], sg[0, 1, 1]) and sg[0, 1, 1] > sg[0, 0, 1]):
+            return {"got": sg[:3].tolist(), "expected": "all lines from the same baseline to the same height", "witness_class": tag + ":rug-height"}
+        lines = [l for l in main.lines if len(l.get_xdata()) >= 100]
+        if not lines:
+            return {"got": len(main.lines), "expected": "a model curve", "witness_class": tag + ":no-model-line"}
+        lx, ly = np.asarray(lines[0].get_xdata(), float), np.asarray(lines[0].get_ydata(), float)
+        r = near(ly, f.eval_model_function(x=lx), tag + ":model-line", 1e-9)
+        if r:
+            return r
+        if lx.min() > xs.min() or lx.max() < xs.max():
+            return {"got": [lx.min(), lx.max()], "expected": [xs.min(), xs.max()], "witness_class": tag + ":model-line-range"}
         return None
     data = [e for e in ebs if e["x"] is not None and len(e["x"]) == len(np.atleast_1d(f.data if k != "xy" else f.x_data))]
     if not data:
